@@ -112,6 +112,20 @@ def run(ctx):
     for k, v in (tr.get("offender_observations") or {}).items():
         outcomes["tls:" + k] = v
         classes[k.split(" -> ")[0]] = classes.get(k.split(" -> ")[0], 0) + v
+    # valid frames only, many connections at once: PREPARE and EXECUTE of statements the proxy answers itself (reads of the
+    # virtual tables, USE) - a process that the Go runtime kills ("fatal error: concurrent map ...") serves nobody
+    sp_stats = ctx.path("sysprep_c17.json")
+    rc, sout, serr = ctx.drv(["sysprep", "-ms", "12000" if t else "4000", "-stats", sp_stats], check=False, timeout=900)
+    if rc != 0:
+        m = re.search(r"(fatal error: [^\n]*|panic: [^\n]*)", serr + sout)
+        site = re.search(r"github.com/datastax/cql-proxy/([\w./()*]+)\(", serr + sout)
+        if not m:
+            raise core.Inconclusive("sysprep driver failed rc=%d\n%s" % (rc, (serr or sout)[-1500:]))
+        ctx.violation("C17:process-died:concurrent-prepare-execute:%s" % (site.group(1) if site else "?"),
+                      "the proxy process died while several connections PREPAREd and EXECUTEd statements the proxy answers itself: %s" % m.group(1),
+                      replay={"stderr_tail": (serr or sout)[-3000:]})
+    else:
+        total["events"] += 1
     if total["events"] < 100:
         raise core.Inconclusive("too few hostile events executed")
     ctx.assumptions += ["abstract classes with listed concrete variants and seeded contents, not coverage-guided byte fuzzing; declared lengths up to 15 MiB; "
